@@ -156,7 +156,7 @@ def _extra(draw):
     return d
 
 
-EXHAUSTIVE_NOTE = 'cumsum for every length 0..2 x flag combination x dtype pairing; linear_interp boundary sweep: every table length 2..40 x 5 origins x 5 widths x float32/float64 x xd at both ends and every node, each -3..+3 ulp (enumerated completely; the other kernel groups are sampled)'
+EXHAUSTIVE_NOTE = 'bin_kmu/bin_kppi for every mesh size 1..9 x 5 edge placements x Fourier/configuration space; TSC/CIC with particles on every face/edge/corner combination of 8 anisotropic grids; cumsum for every length 0..2 x flag combination x dtype pairing; linear_interp boundary sweep: every table length 2..40 x 5 origins x 5 widths x float32/float64 x xd at both ends and every node, each -3..+3 ulp (enumerated completely; the other kernel groups are sampled)'
 
 
 def exhaustive(tier, shard, nshards):
@@ -167,6 +167,28 @@ def exhaustive(tier, shard, nshards):
             if k % nshards != shard:
                 continue
             yield {'g': 'extra', 'd': {'k': 'interp_sweep', 'dt': dt, 'n': n}}
+    # mode binning: every mesh size 1..9 x edge placement x Fourier/configuration space (deterministic boundary sweep)
+    for n in range(1, 10):
+        corner = (3 ** 0.5) * n / 2 + 1
+        for ekind, (lo, hi) in (('all-below-first', (corner + 1, corner + 5)), ('all-beyond-last', (0.0, 0.4)), ('wide', (0.0, corner + 2)), ('to-nyquist', (0.0, n / 2.0)), ('past-nyquist', (0.25, n / 2.0 + 1.3))):
+            for fourier in (True, False):
+                k += 1
+                if k % nshards != shard:
+                    continue
+                edges = [lo + (hi - lo) * i / 3 for i in range(4)]
+                yield {'g': 'extra', 'd': dict(k='bin_kmu', n=n, L=2 * np.pi, ekind=ekind, edges=edges, nthread=1 + (n % 3), fourier=fourier, seed=n, mu=[0.0, 0.5, 1.0], poles=[0, 2] if n % 2 else [])}
+                if n >= 2:
+                    yield {'g': 'extra', 'd': dict(k='bin_kppi', n=n, L=2 * np.pi, ekind=ekind, edges=edges, nthread=1 + (n % 3), fourier=fourier, seed=n, pimax_units=[0.4, n / 2.0, n + 1.0][n % 3], npi=2)}
+    # mass assignment: particles on every combination of {0, mid-cell, centre, just below L, L} per axis, anisotropic grids
+    for shape in ((4, 6, 3), (3, 5, 4), (6, 3, 5), (5, 4, 6), (3, 3, 3), (7, 4, 4), (4, 7, 3), (3, 4, 8)):
+        for kind in ('tsc1', 'tsc2', 'cic'):
+            for offhalf in (False, True):
+                if kind == 'cic' and offhalf:
+                    continue
+                k += 1
+                if k % nshards != shard:
+                    continue
+                yield {'g': 'extra', 'd': dict(k='faces', shape=list(shape), kind=kind, offhalf=offhalf)}
     # cumsum: every (length 0..2) x (initial, final) x dtype pairing with a right-length output (cheap, finite)
     for n in (0, 1, 2):
         for initial in (False, True):
@@ -196,7 +218,7 @@ def nontrivial(desc):
         except Exception:
             return False
     k = d['k']
-    if k == 'interp_sweep':
+    if k in ('interp_sweep', 'faces'):
         return True
     if k in ('bin_kppi', 'bin_kmu'):
         return d['ekind'] != 'inside' or d['n'] <= 2 or (k == 'bin_kppi' and d['pimax_units'] < d['n'] / 2)
@@ -315,6 +337,31 @@ def _run_extra(d):
             k_ell = np.linspace(0.0, max(kmaxmesh * d['kmax_rel'], 1e-3), n)
             P_ell = np.vstack([y.astype(np.float64) + i for i in range(len(d['poles']))])
             _guard('expand_poles_to_3d', ps.expand_poles_to_3d, k_ell, P_ell, n1d, L, np.array(d['poles'], dtype=np.int64))
+        return None
+    if k == 'faces':
+        import itertools
+
+        from abacusnbody.analysis import tsc
+        from abacusnbody.analysis.cic import cic_serial
+
+        box = 60.0
+        shape = tuple(d['shape'])
+        tscmode = d['kind'].startswith('tsc')
+        per_axis = []
+        for g in shape:
+            h = box / g
+            vals = [0.0, 0.5 * h, box / 2, float(np.nextafter(np.float32(box), np.float32(0)))]
+            if tscmode:
+                vals.append(box)  # the value BoxSize itself (in-place wrapping can produce it)
+            per_axis.append(vals)
+        pos = np.array(list(itertools.product(*per_axis)), dtype=np.float32)
+        grid = np.zeros(shape, dtype=np.float32)
+        if tscmode:
+            off = 0.5 * box / max(shape) if d['offhalf'] else 0.0
+            for wrap in (True, False):
+                _guard('tsc_parallel', tsc.tsc_parallel, pos.copy(), grid, box, nthread=int(d['kind'][-1]), wrap=wrap, offset=off)
+        else:
+            _guard('cic_serial', cic_serial, pos.copy(), grid, box)
         return None
     if k == 'interp_sweep':
         from abacusnbody.analysis import power_spectrum as ps
